@@ -504,11 +504,283 @@ def ini_in_statement(m):
     return True
 
 
+
+# --- INI: Lean model `Model/Ini.lean` (streams ini.*) ------------------------
+INI_EQS = ["=", "=", "=", ":", "=>", "= "]
+
+
+def ini_impl():
+    from n0struct.n0struct_comprehensions import parse_ini, load_ini, default_parse_value  # noqa
+    from n0struct.n0struct_utils import isnumber  # noqa
+    from n0struct.n0struct_files import save_file, load_lines  # noqa
+
+    return parse_ini, load_ini, default_parse_value, isnumber, save_file, load_lines
+
+
+def ini_scalar_ok(v):
+    return isinstance(v, (int, float, str)) and not isinstance(v, bool)
+
+
+def ini_show_dict(r):
+    """('ok', dict) / ('err', cls) -> the driver's answer form"""
+    if r[0] != "ok":
+        return "err " + r[1]
+    if not isinstance(r[1], dict) or not all(isinstance(k, str) and ini_scalar_ok(v) for k, v in r[1].items()):
+        return "ok ?" + repr(r[1])
+    return "ok " + enc_val(dict(r[1]))
+
+
+def ini_value_line(c):
+    return "ini.value %s" % enc_str(c["s"])
+
+
+def ini_value_impl(c):
+    dpv = ini_impl()[2]
+    r = core.call(dpv, ("", c["s"]), "")
+    if r[0] != "ok":
+        return "err " + r[1]
+    return "ok " + enc_val(r[1]) if ini_scalar_ok(r[1]) else "ok ?" + repr(r[1])
+
+
+def ini_isnum_line(c):
+    return "ini.isnum %s" % enc_str(c["s"])
+
+
+def ini_isnum_impl(c):
+    r = core.call(ini_impl()[3], c["s"])
+    return "ok " + tf(r[1]) if r[0] == "ok" else "err " + r[1]
+
+
+def ini_parse_line(c):
+    return ("ini.parse %s %s" % (enc_str(c["eq"]), " ".join(enc_str(x) for x in c["lines"]))).rstrip()
+
+
+def ini_parse_impl(c):
+    return ini_show_dict(core.call(ini_impl()[0], list(c["lines"]), equal_tag=c["eq"]))
+
+
+def _with_file(fn):
+    fd, path = tempfile.mkstemp(suffix=".ini", prefix="c17_")
+    os.close(fd)
+    try:
+        return fn(path)
+    finally:
+        try:
+            os.unlink(path)
+        except OSError:
+            pass
+
+
+def ini_rt_line(c):
+    return "ini.rt %s %s" % (enc_str(c["eq"]), enc_val(c["m"]))
+
+
+def ini_rt_impl(c):
+    _, load_ini, _, _, save_file, _ = ini_impl()
+
+    def go(path):
+        r = core.call(save_file, path, dict(c["m"]), EOL=c["eol"], equal_tag=c["eq"])
+        if r[0] != "ok":
+            return "err " + r[1]
+        return ini_show_dict(core.call(load_ini, path, equal_tag=c["eq"]))
+
+    return _with_file(go)
+
+
+def ini_read_line(c):
+    return "ini.read %s" % enc_str(c["s"])
+
+
+def ini_read_impl(c):
+    _, _, _, _, save_file, load_lines = ini_impl()
+
+    def go(path):
+        r = core.call(save_file, path, c["s"], EOL="\n")
+        if r[0] != "ok":
+            return "err " + r[1]
+        r = core.call(lambda: list(load_lines(path)))
+        return okstrs(r[1]) if r[0] == "ok" else "err " + r[1]
+
+    return _with_file(go)
+
+
+NUM_TEXTS = ["12", " 12 ", "+5", "-7", "007", "-0", "1.50", "1.2.3", ".5", "5.", "-", "+", "1e3", ".", "- 5", "+ 7", "-.", "+.5", "-0.0", "0.0001",
+             "0.00001", "1.12345678", "1.1234567", "123456789012345.", "1234567890123456.", "12345678.1234567", "123456789.1234567", "00012.5000",
+             "²", "٣", "1٣", "- 5", "½", "5 ", "--5", "+-5", "5-", "5+", "1 2", "1_0", "0x10", "１", "1.٣"]
+QUOTE_TEXTS = ['"quoted"', "'single'", '" sp "', '"', "'", "'a\"", '""', "''", '"a', 'a"', "\"'", ' "x" ', '"12"', "'1.5'", '"a"b"']
+PLAIN_TEXTS = ["", " ", "a=b", "# not a comment", "// x", "a b", "v+", "abc", "True", "None", "é", "café", "€5", "x\ty", "\x16"]
+
+
+def gen_ini_value_text(rng):
+    t = rng.randrange(10)
+    if t < 3:
+        return rng.choice(NUM_TEXTS[:28] if rng.random() < 0.8 else NUM_TEXTS)
+    if t == 3:
+        return rng.choice(QUOTE_TEXTS)
+    if t == 4:
+        return rng.choice(PLAIN_TEXTS)
+    if t < 7:  # decimals and integers of every length
+        ip = "".join(rng.choice("0123456789" if rng.random() < 0.7 else "09") for _ in range(rng.choice([0, 0, 1, 1, 1, 2, 2, 3, 4, 5, 8, 9, 12, 14, 16])))
+        fp = "".join(rng.choice("0123456789" if rng.random() < 0.7 else "059") for _ in range(rng.choice([0, 0, 1, 1, 2, 2, 3, 3, 5, 6, 7, 7, 8])))
+        body = ip + rng.choice([".", ".", ".", ""]) + fp
+        return rng.choice(["", "", " ", "\t"]) + rng.choice(["", "", "+", "-", "- ", "+\t"]) + body + rng.choice(["", "", " ", "\n"])
+    al = ["0", "1", "5", "9", ".", ".", "+", "-", " ", '"', "'", "a", "e", "=", "\t", "²", "٣", "é", " ", "_"]
+    return "".join(rng.choice(al) for _ in range(rng.choice([0, 1, 1, 2, 2, 3, 4, 6])))
+
+
+def gen_ini_key_text(rng, eq):
+    t = rng.randrange(8)
+    if t == 0:
+        k = rng.choice(["", " ", "#k", "//k", "/k", " #k", "k#", "k+", "k +", "k+ ", "+", "++", "k++", "kk", "K", "a.b"] + (["é", "straße", "µ"] if rng.random() < 0.2 else []))
+    else:
+        k = "".join(rng.choice(["k", "K", "a", "b", "1", "_", " ", ".", "/", "+"]) for _ in range(rng.choice([1, 1, 2, 3])))
+    if rng.random() < 0.3:
+        k = k + "+"
+    if rng.random() < 0.15:
+        k = rng.choice([" ", "\t", "  "]) + k
+    if rng.random() < 0.15:
+        k = k + " "
+    return k
+
+
+def gen_ini_line(rng, eq):
+    t = rng.randrange(12)
+    if t == 0:
+        return rng.choice(["", " ", "\t", "  \t ", "\n"])
+    if t == 1:
+        return rng.choice(["# comment", "// comment", "  # k=v", "\t//k=v", "#", "//", "#k+=v", "/ k=v", "/", " /=/"])
+    if t == 2:  # no equal tag on the line
+        return gen_ini_key_text(rng, eq).replace(eq, "")
+    if t == 3:  # several equal tags
+        return gen_ini_key_text(rng, eq) + eq + gen_ini_value_text(rng) + eq + gen_ini_value_text(rng)
+    return gen_ini_key_text(rng, eq) + rng.choice(["", "", " "]) + eq + gen_ini_value_text(rng)
+
+
+def gen_ini_lines_case(rng):
+    eq = rng.choice(INI_EQS + ([""] if rng.random() < 0.05 else []))
+    return {"eq": eq, "lines": [gen_ini_line(rng, eq) for _ in range(rng.choice([0, 1, 1, 2, 3, 4, 6, 9]))]}
+
+
+def gen_ini_mapping(rng, eq, wild=False):
+    m = {}
+    for _ in range(rng.choice([0, 1, 2, 3, 4, 5])):
+        k = gen_ini_key_text(rng, eq)
+        if not wild:
+            k = k.replace(eq.strip() or "=", "")
+        t = rng.randrange(8)
+        if t == 0:
+            v = rng.choice([0, 7, -3, 10**10, -10**20, 12345])
+        elif t == 1:
+            v = rng.choice([1.5, -0.25, 3.14159265358979, 2.0, 1e20, 1e-5, -0.0, 0.1 + 0.2, 1234567.1234567])
+        elif t == 2 and wild:
+            v = rng.choice([None, True, False, "a\nb=c", "x\r", "\r\nk=1"])
+        else:
+            v = gen_ini_value_text(rng)
+            if not wild:
+                v = v.replace("\n", "").replace("\r", "")
+        m[k] = v
+    return m
+
+
+def ini_key_in_statement(k, eq):
+    """keys of the statement's mappings: stripped non-empty ASCII names without equal-tag characters
+    that do not start a comment (hypotheses of C17_ini_roundtrip)"""
+    return (bool(k) and k == k.strip() and k.isascii() and not k.startswith("#") and not k.startswith("//")
+            and not any(ch in eq for ch in k) and "\n" not in k and "\r" not in k)
+
+
+def ini_exact_text(v):
+    """values for which the Lean model answers (not `unsupported`): no numeric or white-space character outside
+    ASCII, decimals short enough for round(float(x), 7) to be the decimal itself"""
+    s = v.strip()
+    if any(ord(ch) > 127 and (ch.isnumeric() or ch.isspace()) for ch in s):
+        return False
+    b = s[1:] if s[:1] in ("+", "-") else s
+    ip, dot, fp = b.partition(".")
+    if dot and (ip + fp).isdigit() and ip.isascii() and fp.isascii():
+        i, f = ip.lstrip("0"), fp.rstrip("0")
+        if len(f) > 7 or len(i) + len(f) > 15 or (not i and f and len(f) - len(f.lstrip("0")) >= 4):
+            return False
+    return True
+
+
+def ini_lines_reference(lines, eq="="):
+    """parse_ini as the statement reads: comment and blank lines skipped, first equal tag splits, keys stripped and
+    upper-cased, values typed, `K+` keys concatenate (a first `K+` starts with the marker)"""
+    out = {}
+    for line in lines:
+        s = line.lstrip()
+        if not s or s.startswith("#") or s.startswith("//"):
+            continue
+        k, v = s.split(eq, 1) if eq and eq in s else (s, "")
+        key, val = k.strip().upper(), ini_typed(v)
+        if key.endswith("+"):
+            key = key[:-1]
+            val = "%s%s" % (out[key], val) if key in out else "\x16%s" % (val,)
+        out[key] = val
+    return out
+
+
+def _same_dict(got, want):
+    return got == want and list(got) == list(want) and [type(v) for v in got.values()] == [type(v) for v in want.values()]
+
+
+def check_ini_concat(c):
+    """`K=a` then `K+=b` gives str(a)+str(b) (typed values, printed); `K+=b` on an unseen key gives marker+b;
+    a second parse in the same process gives the same"""
+    parse_ini = ini_impl()[0]
+    K, a, b, eq = c["k"], c["a"], c["b"], c["eq"]
+    ta, tb = ini_typed(a), ini_typed(b)
+    key = K.strip().upper()
+    for lines, want in (([K + eq + a, K + "+" + eq + b], {key: "%s%s" % (ta, tb)}),
+                        ([K + "+" + eq + b], {key: "\x16%s" % (tb,)}),
+                        ([K + "+" + eq + a, K + "+" + eq + b], {key: "\x16%s%s" % (ta, tb)}),
+                        ([K + "+" + eq + b, K + eq + a], {key: ta})):
+        for _ in range(2):
+            r = core.call(parse_ini, list(lines), equal_tag=eq)
+            if r[0] != "ok":
+                return {"lines": lines, "raised": r[1]}
+            if not _same_dict(r[1], want):
+                return {"lines": lines, "got": repr(r[1]), "want": repr(want)}
+    return None
+
+
+def check_ini_comments(c):
+    """comment and blank lines change nothing"""
+    parse_ini = ini_impl()[0]
+    kept = [ln for ln, noise in zip(c["lines"], c["noise"]) if not noise]
+    a = core.call(parse_ini, list(c["lines"]), equal_tag=c["eq"])
+    b = core.call(parse_ini, kept, equal_tag=c["eq"])
+    if a[0] != "ok" or b[0] != "ok":
+        return {"raised": [a[1] if a[0] != "ok" else None, b[1] if b[0] != "ok" else None]}
+    if not _same_dict(a[1], b[1]):
+        return {"with": repr(a[1]), "without": repr(b[1])}
+    return None
+
+
+def check_ini_lines(c):
+    """parse_ini(lines) = the reference written from the statement"""
+    parse_ini = ini_impl()[0]
+    r = core.call(parse_ini, list(c["lines"]), equal_tag=c["eq"])
+    want = ini_lines_reference(c["lines"], c["eq"])
+    if r[0] != "ok":
+        return {"raised": r[1], "want": repr(want)}
+    if not _same_dict(r[1], want):
+        return {"got": repr(r[1]), "want": repr(want)}
+    return None
+
+
+def _is_noise(line):
+    s = line.lstrip()
+    return (not s) or s.startswith("#") or s.startswith("//")
+
+
 # ---------------------------------------------------------------------------
 EVALS = {
     "spec": check_spec, "plain": check_plain, "total": None, "independent": check_independent, "join": check_join,
     "dict_roundtrip": check_dict_roundtrip, "nested": check_nested, "default": check_default, "ini": check_ini,
     "keyvalue": check_keyvalue, "protected": check_protected,
+    "ini_concat": check_ini_concat, "ini_comments": check_ini_comments, "ini_lines": check_ini_lines,
 }
 
 
@@ -569,6 +841,11 @@ VALID = {
     "ini": lambda c: isinstance(c.get("m"), dict) and c.get("eol") in ("\n", "\r\n") and ini_in_statement(c["m"]),
     "protected": lambda c: _dict_valid(c),
     "keyvalue": lambda c: c.get("eq") and isinstance(c.get("k"), str) and isinstance(c.get("v"), str) and all(ch not in c["eq"] for ch in c["k"]),
+    "ini_concat": lambda c: bool(c.get("eq")) and ini_key_in_statement(c.get("k", ""), c["eq"]) and not c["k"].endswith("+")
+    and all(isinstance(c.get(x), str) and "\n" not in c[x] and "\r" not in c[x] for x in ("a", "b")),
+    "ini_comments": lambda c: isinstance(c.get("lines"), list) and isinstance(c.get("noise"), list) and len(c["lines"]) == len(c["noise"])
+    and all(isinstance(ln, str) and (not nz or _is_noise(ln)) for ln, nz in zip(c["lines"], c["noise"])),
+    "ini_lines": lambda c: isinstance(c.get("lines"), list) and all(isinstance(ln, str) for ln in c["lines"]) and isinstance(c.get("eq"), str),
 }
 
 
@@ -598,7 +875,8 @@ def replay(rp):
     return 1 if mo != io_ else 0
 
 
-IMPLS = {"esc.split": split_impl, "esc.spec": spec_py, "esc.dlist": dlist_impl, "esc.kv": kv_impl, "esc.ddict": ddict_impl,
+IMPLS = {"ini.value": ini_value_impl, "ini.isnum": ini_isnum_impl, "ini.parse": ini_parse_impl, "ini.rt": ini_rt_impl, "ini.read": ini_read_impl,
+         "esc.split": split_impl, "esc.spec": spec_py, "esc.dlist": dlist_impl, "esc.kv": kv_impl, "esc.ddict": ddict_impl,
          "esc.ser": ser_impl, "esc.unesc": unesc_impl, "esc.rt": rt_impl}
 
 
@@ -773,6 +1051,58 @@ def run(ctx):
         if ini_in_statement(m):
             inis.append({"m": m, "eol": rng.choice(["\n", "\r\n"])})
     ctx.evaluate("ini", inis, check_ini, nontrivial=lambda c: len(c["m"]) > 0)
+    # ---- B8: INI model (Model/Ini.lean): isnumber, default_parse_value, parse_ini, load_ini(save_file(m)), load_lines
+    rng = ctx.rng("ini.value")
+    vals = [{"s": x} for x in NUM_TEXTS + QUOTE_TEXTS + PLAIN_TEXTS] + [{"s": gen_ini_value_text(rng)} for _ in range(n)]
+    ctx.correspond("ini.value", vals, ini_value_line, ini_value_impl, nontrivial=lambda c: any(ch.isdigit() for ch in c["s"]) or '"' in c["s"] or "'" in c["s"])
+    import unicodedata  # noqa
+    cps = set(range(0, 0x250))
+    prev = False
+    for cp in range(0x250, 0x110000):  # every boundary of str.isnumeric(), both sides
+        cur = chr(cp).isnumeric()
+        if cur != prev:
+            cps.update((cp - 1, cp))
+        prev = cur
+    cps.update(rng.randrange(0x110000) for _ in range(ctx.budget(2000, 60000)))
+    isn = [{"s": chr(cp)} for cp in sorted(cps) if not 0xD800 <= cp <= 0xDFFF]
+    isn += [{"s": x["s"]} for x in vals[: n // 2]]
+    ctx.correspond("ini.isnum", isn, ini_isnum_line, ini_isnum_impl, nontrivial=lambda c: len(c["s"]) > 0)
+    rng = ctx.rng("ini.parse")
+    pcs = [gen_ini_lines_case(rng) for _ in range(n)]
+    pcs += [{"eq": "=", "lines": ls} for ls in (["// Ini file", "KEY1 =VALUE1", "# KEY2=VALUE2", "KEY3= VALUE3"], ["K=.", "K=- 5", "K=\u00b2"],
+                                                ["k=a", "k+=b", "K +=c", "k+", "+=x", "+", "q+=1", "q+=2.50", "q+=\"z\""], ["a=1", "a+=2", "A=1.5", "a+= x "])]
+    nt_parse = lambda c: any(not _is_noise(ln) for ln in c["lines"])  # noqa
+    ctx.correspond("ini.parse", pcs, ini_parse_line, ini_parse_impl, nontrivial=nt_parse)
+    rng = ctx.rng("ini.rt")
+    rtc = []
+    for _ in range(n // 2):
+        eq = rng.choice(INI_EQS)
+        rtc.append({"eq": eq, "m": gen_ini_mapping(rng, eq, wild=rng.random() < 0.3), "eol": rng.choice(["\n", "\n", "\r\n", "\r"])})
+    ctx.correspond("ini.rt", rtc, ini_rt_line, ini_rt_impl, nontrivial=lambda c: len(c["m"]) > 0)
+    rds = [{"s": "".join(rng.choice(["a", "b", "=", " ", "\n", "\n", "\r", "\r\n", "\x0b", "\x0c", "\x1c", "\x85", "\u2028"]) for _ in range(rng.choice([0, 1, 2, 3, 5, 8])))}
+           for _ in range(n // 6)]
+    ctx.correspond("ini.read", rds, ini_read_line, ini_read_impl, nontrivial=lambda c: "\n" in c["s"] or "\r" in c["s"])
+    # ---- C: INI lines against the statement's reference, '+=' concatenation, comments
+    ctx.evaluate("ini_lines", [c for c in pcs], check_ini_lines, nontrivial=nt_parse)
+    rng = ctx.rng("ini_concat")
+    ccs = []
+    while len(ccs) < n // 4:
+        eq = rng.choice(INI_EQS)
+        c = {"k": gen_ini_key_text(rng, eq).strip().rstrip("+").strip(), "a": gen_ini_value_text(rng), "b": gen_ini_value_text(rng), "eq": eq}
+        if VALID["ini_concat"](c):
+            ccs.append(c)
+    ctx.evaluate("ini_concat", ccs, check_ini_concat)
+    rng = ctx.rng("ini_comments")
+    cms = []
+    for _ in range(n // 4):
+        eq = rng.choice(INI_EQS)
+        lines, noise = [], []
+        for _ in range(rng.choice([1, 2, 3, 5, 8])):
+            ln = gen_ini_line(rng, eq)
+            lines.append(ln)
+            noise.append(_is_noise(ln) and rng.random() < 0.8)
+        cms.append({"eq": eq, "lines": lines, "noise": noise})
+    ctx.evaluate("ini_comments", cms, check_ini_comments, nontrivial=lambda c: any(c["noise"]) and not all(c["noise"]))
     ctx.extra["assumptions"] = [
         "the model follows the code with fix patches C17-a, C17-b, C17-c, C17-d applied (C17-f concerns parse_ini, which has no model)",
         "escape character: None/'' or a single character (a longer escape_character is outside the model)",
